@@ -129,7 +129,7 @@ def gen_c(ctx, ll, entries, fp='exact', global_init=False, extra_models=()):
 class Query:
     def __init__(self, name, harness, entry, params=(), mode='sat', fp='exact', unwind=10, unwindset=(), defines=(),
                  checks='full', timeout=120, arena=False, global_init=False, extra_models=(), harness_defs=(),
-                 cbmc_args=(), desc=None, witness=False, mem_gb=24, all_entries=None, native_defs=()):
+                 cbmc_args=(), desc=None, witness=False, mem_gb=24, all_entries=None, native_defs=(), object_bits=10):
         self.name = name
         self.harness = harness
         self.entry = entry
@@ -151,12 +151,13 @@ class Query:
         self.mem_gb = mem_gb
         self.all_entries = all_entries or [entry]
         self.native_defs = list(native_defs)
+        self.object_bits = object_bits
 
 
 def cbmc_cmd(ctx, q, cfile, witness=False):
     cmd = ['cbmc', cfile, '-I', os.path.join(VERIF, 'models'), '--function', '__ir2c_entry_' + re.sub(r'[^A-Za-z0-9_]', '_', q.entry),
            '--unwind', str(q.unwind), '--unwinding-assertions', '--no-malloc-may-fail', '--drop-unused-functions',
-           '--object-bits', '10']
+           '--object-bits', str(q.object_bits)]
     for u in q.unwindset:
         cmd += ['--unwindset', u]
     for i, p in enumerate(q.params):
@@ -171,6 +172,10 @@ def cbmc_cmd(ctx, q, cfile, witness=False):
         cmd.append('-DWITNESS')
     if q.checks == 'full':
         cmd += ['--pointer-overflow-check', '--undefined-shift-check']
+    elif q.checks == 'deref':
+        # dereference/bounds/division checks, but not --pointer-overflow-check: libstdc++ forms `nullptr + 0` and
+        # one-past pointers that CBMC flags and no sanitizer confirms
+        cmd += ['--undefined-shift-check']
     elif q.checks == 'asserts':
         cmd += ['--no-pointer-check', '--no-bounds-check', '--no-pointer-primitive-check', '--no-div-by-zero-check',
                 '--no-signed-overflow-check', '--no-undefined-shift-check']
